@@ -197,6 +197,10 @@ def predicate(op, il, mres, tag):
                    "transform": "Relic.Props.C09.failover_same_body (GetReader yields identical bytes each time)",
                    "xlinger": "Relic.Props.C09.failover_same_body"}[k]
             return (thm, "ok same", il)
+    elif k == "pipe":
+        if il.startswith("ok DIFF"):
+            return ("Relic.Props.C09.pgp_pipe_transform_all_or_nothing", "ok same | ok refused",
+                    "the transform of a non-seekable input yields something other than the input: " + il)
     elif k == "jarrepro":
         if il != "ok distinct=1":
             return ("stream_digest_eq_file_digest (unproved; implementation oracle)", "ok distinct=1",
